@@ -202,6 +202,41 @@ META = {
         detected_by={"C09": "hist:stored_frozen_equals_previous / hist:stored_floor (the history oracle recomputes the mask with the mineral's own n_grains)"},
         strengthening=None,
     ),
+    "C02b": dict(
+        summary="olivine power-law slip rate routed through a helper that evaluates whole-number n by repeated multiplication (ratio**n): the sign is lost for even n",
+        needs="olivine, deformation exponent exactly 2 or 4, a grain with a non-softest active system of opposite sign to the softest one",
+        detected_before_strengthening=True,
+        detected_by={"C02": "rotation_rate_equals_reference / volume_rate_equals_reference (20 % of cases draw n from {2, 3.5, 5}; now also 3 and 4)"},
+        strengthening="whole-number exponents {2, 3, 4, 5} drawn explicitly",
+    ),
+    "C03b": dict(
+        summary="dislocation branches share a helper whose per-grain mobility buffer np.full(n, gbm_mobility) takes the dtype of gbm_mobility: an int mobility (the documented default type) truncates M*phi toward zero",
+        needs="integer-typed gbm_mobility and a phase volume fraction that makes M*phi non-integer (multiphase aggregates)",
+        detected_before_strengthening=False,
+        detected_by={"C03": "linear_in_phase_fraction / linear_in_mobility", "C02": "volume_rate_equals_reference"},
+        strengthening="integer-typed mobilities in 25-30 % of the rate-level cases and in a quarter of the integrated histories",
+    ),
+    "C04b": dict(
+        summary="strain-rate scale taken from a closed-form 3x3 helper whose 'already diagonal' shortcut tests tensor[1,0] instead of tensor[1,2]: a strain rate with only a yz component has scale 0 -> replaced by 1.0",
+        needs="texture integration (not direct rates), a velocity gradient whose symmetric part has only a yz component of non-unit size, M* > 0, comparison with a frame rotated out of the y-z plane",
+        detected_before_strengthening=False,
+        detected_by={"C04": "int-rot:textures_related on coordinate-aligned flows of non-unit amplitude", "C05": "rescale (amplitude k != 1)"},
+        strengthening="half of the integrated C04 pairs use coordinate-aligned flows with amplitude k in {0.5, 3, 1e-3, 1e2}; all history generators draw an amplitude",
+    ),
+    "C08b": dict(
+        summary="update_all gives the get_regime callback only to the first mineral; later minerals get get_regime=None and minerals[0].regime",
+        needs="update_all with >= 2 minerals, a get_regime callback whose value changes inside an update interval",
+        detected_before_strengthening=False,
+        detected_by={"C08": "c:update_all_order_bit_identical on histories with a regime switch"},
+        strengthening="30 % of the C08 histories switch regime half-way (through get_regime)",
+    ),
+    "C10b": dict(
+        summary="voigt_averages 'vectorised': weights = np.asarray(mineral.fractions[i]); weights *= phase_fraction  -- multiplies the Mineral's own stored volumes in place",
+        needs="a phase fraction != 1, float64 stored volumes, and a second use of the same Mineral objects",
+        detected_before_strengthening=True,
+        detected_by={"C10": "order_independent (second/third call on the same minerals), now also minerals_not_mutated"},
+        strengthening="explicit minerals_not_mutated oracle",
+    ),
 }
 
 
